@@ -42,6 +42,7 @@ pub fn check_with(case: &ProgCase, classify: &dyn Fn(&ProgCase, &Agreed) -> (boo
             for c in classes {
                 v = v.class(c);
             }
+            v = v.class_if(a.src.contains("replace_with("), "replace_with_closure");
             v.class(match a.end {
                 crate::model::interp::RefEnd::Ok(_) => "end_ok",
                 crate::model::interp::RefEnd::Return(_) => "end_return",
